@@ -269,6 +269,15 @@ func (q rawReq) build(docs []docInfo) *http.Request {
 			body = "null"
 		case "nonobject":
 			body = `["query"]`
+		case "typeerror":
+			// well-formed JSON whose last member has the wrong type: encoding/json has stored the members before it
+			// when it reports the error
+			name := q.OpName
+			if name == "" {
+				name = "Stale"
+			}
+			b, _ := json.Marshal(map[string]any{"query": text, "operationName": name})
+			body = strings.TrimSuffix(string(b), "}") + `,"extensions":{"stale":{"k":1}},"variables":"oops"}`
 		}
 		req = httptest.NewRequest(q.Method, "/query", strings.NewReader(body))
 	case "graphql":
@@ -603,7 +612,10 @@ func randReq(r *gen.Rand, docs []docInfo, nExts int, malformedRate int) rawReq {
 		case "get":
 			q.Body = gen.Pick(r, []string{"bad", "badquerystring"})
 		case "post", "formjson":
-			q.Body = gen.Pick(r, []string{"bad", "null", "nonobject"})
+			q.Body = gen.Pick(r, []string{"bad", "null", "nonobject", "typeerror"})
+			if q.Transport == "formjson" && q.Body == "typeerror" {
+				q.Body = "bad"
+			}
 			if q.Transport == "formjson" && q.Body == "nonobject" {
 				q.Body = "bad"
 			}
@@ -629,6 +641,14 @@ func RunAs(prop string) func(*gen.Ctx) error {
 		n, err := Generate(c, prop, gen.NewRand(c.Seed), meta)
 		if err != nil {
 			return err
+		}
+		if prop == "C07" {
+			k := 300
+			if c.Thorough() {
+				k = 5000
+			}
+			audited := astAudit(gen.NewRand(c.Seed+77), k, meta)
+			meta.Notes = append(meta.Notes, fmt.Sprintf("%d operations collected twice over every possible object type with the parsed document compared before and after, spare slice capacity included (the document is what the query cache shares between requests)", audited))
 		}
 		meta.Evaluations = n
 		return meta.Write(c.OutDir)
